@@ -37,3 +37,9 @@ Definition nearest_spec (a v R : Z) : Prop :=
 (** the quantizer after a history of allow / forbid / convert calls *)
 Definition qrun (ops : list quant_op) : quant := fold_left quant_step ops quant_new.
 
+
+(** scale notes are [u8] values in the Rust API ([Note::new(n: u8)]) *)
+Definition u8_notes (ns : list Z) : Prop := Forall (fun n => 0 <= n < 256) ns.
+Definition wf_op (o : quant_op) : Prop :=
+  match o with QAllow ns | QForbid ns => u8_notes ns | QConvert _ => True end.
+Definition wf_ops (ops : list quant_op) : Prop := Forall wf_op ops.
